@@ -15,6 +15,10 @@ std::unique_ptr<ndsparse> splinetable<Alloc>::grideval(const DoubleContCont& coo
 	static_assert(std::is_same<double,typename std::remove_const<typename DoubleCont::value_type>::type>::value,
 	              "DoubleCont must be a container of double values");
 
+	//an empty table has no arrays to evaluate (naxes, strides and coefficients are null)
+	if (ndim == 0)
+		throw(std::runtime_error("splinetable contains no data, cannot evaluate it on a grid"));
+	
 	if (coords.size() != ndim)
 		throw(std::logic_error("Number of coordinate vectors ("
 			+std::to_string(coords.size())+
